@@ -1,5 +1,5 @@
 use std::env;
-use std::ffi::{CString, OsStr, OsString};
+use std::ffi::{CStr, CString, OsStr, OsString};
 use std::fs::File;
 use std::io::{Error, Result};
 use std::iter;
@@ -40,6 +40,11 @@ pub unsafe fn fork() -> Result<Option<u32>> {
     }
 }
 
+pub fn chdir(dir: &CStr) -> Result<()> {
+    check_err(unsafe { libc::chdir(dir.as_ptr()) })?;
+    Ok(())
+}
+
 pub fn setuid(uid: u32) -> Result<()> {
     check_err(unsafe { libc::setuid(uid as libc::uid_t) })?;
     Ok(())
@@ -55,7 +60,7 @@ pub fn setpgid(pid: u32, pgid: u32) -> Result<()> {
     Ok(())
 }
 
-fn os_to_cstring(s: &OsStr) -> Result<CString> {
+pub fn os_to_cstring(s: &OsStr) -> Result<CString> {
     // Like CString::new, but returns an io::Result for consistency with
     // everything else.
     CString::new(s.as_bytes()).map_err(|_| Error::from_raw_os_error(libc::EINVAL))
